@@ -15,7 +15,7 @@ META = {
         "The request ids themselves flow through the real BER encoder (client), the independent decoder "
         "(agent), the independent encoder and the real decoder."),
     "bounds": ["clock: base instant 1700000000, each of the first 6 reads advances by 0 or 1 s (all 64 schedules), one job with a 2^31 wrap-around base",
-               "response id offset d in {0, +1, -1, +1000, -2^31, +2^32, -2^32, 3*2^32, 2^40} (any integer can be sent)", "reply community in {same, prefix, other, empty}; reply version in {same, other}",
+               "response id offset d in {0, +1, -1, +1000, -2^31, +2^32, -2^32, 3*2^32, 2^40} (any integer can be sent)", "reply community in {same, prefix, other, empty, with a trailing / leading non-ASCII octet, other case, extension, trailing NUL}; reply version in {same, other}",
                "discovery reply message-id offset in {0, 1}", "operations get, multiget, getnext, multigetnext, set, multiset, bulkget, 1st and 2nd request of walk and bulkwalk",
                "v1, v2c, v3 noAuthNoPriv / authNoPriv / authPriv"],
     "outside": ["clocks that jump by more than one second between two reads (the code only compares ids for equality)",
@@ -28,7 +28,7 @@ UNIVERSE = [(o, C.value_for(i)) for i, o in enumerate(C.U14)]
 OIDS = [C.U14[2], C.U14[3]]
 OPS = ["get", "multiget", "getnext", "multigetnext", "set", "multiset", "bulkget", "walk1", "walk2", "bulkwalk1", "bulkwalk2"]
 OFFSETS = [0, 1, -1, 1000, -2 ** 31, 2 ** 32, -2 ** 32, 3 * 2 ** 32, 2 ** 40]
-COMMUNITIES = [None, b"publi", b"private", b""]
+COMMUNITIES = [None, b"publi", b"private", b"", b"public\xff", b"\x80public", b"Public", b"public1", b"public\x00"]
 
 
 class Clock:
@@ -83,7 +83,7 @@ def make_harness(kind, op, base=1700000000, traced=False):
         with (_Null() if traced else window()):
             ticks = [choose(t, 0, 1) for t in (t0, t1, t2, t3, t4, t5)]
             d = OFFSETS[choose(d_sel, 0, len(OFFSETS) - 1)]
-            comm = COMMUNITIES[choose(comm_sel, 0, 3)] if not v3 else None
+            comm = COMMUNITIES[choose(comm_sel, 0, len(COMMUNITIES) - 1)] if not v3 else None
             other_version = choose(ver_sel, 0, 1) == 1 if not v3 else False
             disco_off = choose(disco_sel, 0, 1) if v3 else 0
             # reference run with an honest agent and a frozen clock -> the data the caller must get
@@ -176,7 +176,7 @@ def jobs(tier):
     def args(v3, nticks):
         a = [Arg(f"t{i}", 0, 1 if i < nticks else 0) for i in range(6)]
         a += [Arg("d_sel", 0, len(OFFSETS) - 1)]
-        a += [Arg("comm_sel", 0, 0 if v3 else 3), Arg("ver_sel", 0, 0 if v3 else 1), Arg("disco_sel", 0, 1 if v3 else 0)]
+        a += [Arg("comm_sel", 0, 0 if v3 else len(COMMUNITIES) - 1), Arg("ver_sel", 0, 0 if v3 else 1), Arg("disco_sel", 0, 1 if v3 else 0)]
         return a
 
     for kind in ("v1", "v2c", "noauth", "md5", "sha1priv"):
